@@ -321,7 +321,21 @@ class SNum(SVal):
             b = z3.ToReal(b)
         return a / b
 
+    def _zero_div(self, num, den):
+        """numpy semantics of a true division whose divisor may be zero (symbolic scalars are results of numpy
+        reductions: x/0 is nan or +-inf there, never an exception); the zero case is a decision, so it is explored as
+        a path of its own instead of being left to z3's unspecified x/0."""
+        if isinstance(den, (SNum, int, float)) and not isinstance(den, bool):
+            if bool(den == 0):
+                if bool(num == 0):
+                    return float("nan")
+                return float("inf") if bool(num > 0) else float("-inf")
+        return None
+
     def __truediv__(self, o):
+        z = self._zero_div(self, o)
+        if z is not None:
+            return z
         r = self._bin(o, SNum._tdiv)
         if isinstance(r, SVal) and isinstance(o, SNum):
             r.prov = ("ratio", self, o)
@@ -330,6 +344,9 @@ class SNum(SVal):
         return r
 
     def __rtruediv__(self, o):
+        z = self._zero_div(o, self)
+        if z is not None:
+            return z
         r = self._bin(o, SNum._tdiv, True)
         if isinstance(r, SVal):
             r.prov = ("ratio", o, self)
@@ -368,7 +385,7 @@ class SNum(SVal):
         return mk(z3.If(self.z >= 0, self.z, -self.z))
 
     # -- comparison --------------------------------------------------------
-    def _cmp(self, o, f):
+    def _cmp(self, o, f, kind=None):
         if is_nan(o):
             return False
         if not _num_other(o):
@@ -378,30 +395,50 @@ class SNum(SVal):
                     return False
             else:
                 return NotImplemented
+        if kind is not None and type(o) in (int, float):
+            # comparison with a constant decided by the declared variable bounds: no term, no solver
+            ex = _CUR
+            if ex is not None and ex.bounds:
+                iv = ex.interval_cached(self.z)
+                if iv is not None:
+                    lo, hi = iv
+                    r = None
+                    if kind == "lt":
+                        r = True if (hi is not None and hi < o) else (False if (lo is not None and lo >= o) else None)
+                    elif kind == "le":
+                        r = True if (hi is not None and hi <= o) else (False if (lo is not None and lo > o) else None)
+                    elif kind == "gt":
+                        r = True if (lo is not None and lo > o) else (False if (hi is not None and hi <= o) else None)
+                    elif kind == "ge":
+                        r = True if (lo is not None and lo >= o) else (False if (hi is not None and hi < o) else None)
+                    elif (hi is not None and hi < o) or (lo is not None and lo > o):
+                        r = (kind == "ne")
+                    if r is not None:
+                        return r
         return mk(f(self.z, zof(o)))
 
     def __lt__(self, o):
-        return self._cmp(o, lambda a, b: a < b)
+        return self._cmp(o, lambda a, b: a < b, "lt")
 
     def __le__(self, o):
-        return self._cmp(o, lambda a, b: a <= b)
+        return self._cmp(o, lambda a, b: a <= b, "le")
 
     def __gt__(self, o):
-        return self._cmp(o, lambda a, b: a > b)
+        return self._cmp(o, lambda a, b: a > b, "gt")
 
     def __ge__(self, o):
-        return self._cmp(o, lambda a, b: a >= b)
+        return self._cmp(o, lambda a, b: a >= b, "ge")
 
     def __eq__(self, o):
         if o is None or isinstance(o, str):
             return False
-        r = self._cmp(o, lambda a, b: a == b)
+        r = self._cmp(o, lambda a, b: a == b, "eq")
         return False if r is NotImplemented else r
 
     def __ne__(self, o):
         if o is None or isinstance(o, str):
             return True
-        r = self._cmp(o, lambda a, b: a != b)
+        r = self._cmp(o, lambda a, b: a != b, "ne")
         return True if r is NotImplemented else r
 
     def __bool__(self):
@@ -682,11 +719,14 @@ class Explorer:
         self.results = []  # per path obligation outcomes
         self.tie_choices = 0
         self.named_choices = []
+        self.bounds = {}
+        self._ivcache = {}
 
     # -- variables ---------------------------------------------------------
     def int(self, name, lo=None, hi=None):
         v = z3.Int(name)
         self.vars[name] = v
+        self.bounds[name] = (lo, hi)
         self.small[name] = lo is not None and hi is not None and hi - lo <= self.MAX_CONCRETIZE
         if lo is not None:
             self.add(v >= lo)
@@ -697,6 +737,7 @@ class Explorer:
     def real(self, name, lo=None, hi=None):
         v = z3.Real(name)
         self.vars[name] = v
+        self.bounds[name] = (lo, hi)
         if lo is not None:
             self.add(v >= lo)
         if hi is not None:
@@ -775,12 +816,98 @@ class Explorer:
             return False
         return None
 
+    def _interval(self, t, depth=0):
+        """interval of an arithmetic term from the declared variable bounds (None = unbounded side / unknown term)"""
+        if depth > 12:
+            return None
+        if z3.is_int_value(t):
+            v = t.as_long()
+            return (v, v)
+        if z3.is_rational_value(t):
+            v = Fraction(t.numerator_as_long(), t.denominator_as_long())
+            return (v, v)
+        k = t.decl().kind()
+        if k == z3.Z3_OP_UNINTERPRETED and t.num_args() == 0:
+            return self.bounds.get(t.decl().name())
+        if k == z3.Z3_OP_TO_REAL:
+            return self._interval(t.arg(0), depth + 1)
+        if k in (z3.Z3_OP_ADD, z3.Z3_OP_SUB, z3.Z3_OP_UMINUS, z3.Z3_OP_MUL):
+            iv = [self._interval(a, depth + 1) for a in t.children()]
+            if any(x is None for x in iv):
+                return None
+            if k == z3.Z3_OP_UMINUS:
+                lo, hi = iv[0]
+                return (None if hi is None else -hi, None if lo is None else -lo)
+            if k == z3.Z3_OP_MUL:
+                if len(iv) != 2 or iv[0][0] is None or iv[0][0] != iv[0][1]:
+                    return None
+                c, (lo, hi) = iv[0][0], iv[1]
+                a, b = (None if lo is None else c * lo), (None if hi is None else c * hi)
+                return (a, b) if c >= 0 else (b, a)
+            lo, hi = iv[0]
+            for (l2, h2) in iv[1:]:
+                if k == z3.Z3_OP_ADD:
+                    lo = None if lo is None or l2 is None else lo + l2
+                    hi = None if hi is None or h2 is None else hi + h2
+                else:
+                    lo = None if lo is None or h2 is None else lo - h2
+                    hi = None if hi is None or l2 is None else hi - l2
+            return (lo, hi)
+        return None
+
+    def interval_cached(self, z):
+        k = z.get_id()
+        c = self._ivcache
+        if k not in c:
+            c[k] = (z, self._interval(z))      # keeping z alive keeps its id from being reused
+        return c[k][1]
+
+    def _by_bounds(self, z):
+        """decide a comparison from the declared bounds alone (these are path-independent facts the solver holds as
+        assertions): True / False / None.  Saves the solver round trips for comparisons with far-away constants."""
+        neg = False
+        if z3.is_not(z):
+            z, neg = z.arg(0), True
+        k = z.decl().kind()
+        if k not in (z3.Z3_OP_LE, z3.Z3_OP_LT, z3.Z3_OP_GE, z3.Z3_OP_GT, z3.Z3_OP_EQ) or z.num_args() != 2:
+            return None
+        if not (z3.is_arith(z.arg(0)) and z3.is_arith(z.arg(1))):
+            return None
+        a, b = self._interval(z.arg(0)), self._interval(z.arg(1))
+        if a is None or b is None:
+            return None
+        (al, ah), (bl, bh) = a, b
+        if k in (z3.Z3_OP_GE, z3.Z3_OP_GT):
+            (al, ah), (bl, bh) = (bl, bh), (al, ah)
+            k = z3.Z3_OP_LE if k == z3.Z3_OP_GE else z3.Z3_OP_LT
+        r = None
+        if k == z3.Z3_OP_LE:
+            if ah is not None and bl is not None and ah <= bl:
+                r = True
+            elif al is not None and bh is not None and al > bh:
+                r = False
+        elif k == z3.Z3_OP_LT:
+            if ah is not None and bl is not None and ah < bl:
+                r = True
+            elif al is not None and bh is not None and al >= bh:
+                r = False
+        else:
+            if (ah is not None and bl is not None and ah < bl) or (al is not None and bh is not None and al > bh):
+                r = False
+        if r is None:
+            return None
+        return (not r) if neg else r
+
     def decide(self, z):
         z = z3.simplify(z)
         if z3.is_true(z):
             return True
         if z3.is_false(z):
             return False
+        bb = self._by_bounds(z)
+        if bb is not None:
+            self.stats.bound_decided = getattr(self.stats, "bound_decided", 0) + 1
+            return bb
         i = len(self.trace)
         self.stats.decisions += 1
         if i < len(self.prefix):
